@@ -305,7 +305,11 @@ class MaximizeMergeMatching(InstanceMatchingAlgorithm):
                 new_score = self.new_combination_score(
                     pred_labels_, pred_label, ref_label, unmatched_instance_pair
                 )
-                if new_score > score_ref[ref_label]:
+                if new_score != score_ref[
+                    ref_label
+                ] and self._matching_metric.score_beats_threshold(
+                    new_score, score_ref[ref_label]
+                ):
                     labelmap.add_labelmap_entry(pred_label, ref_label)
                     score_ref[ref_label] = new_score
             elif self._matching_metric.score_beats_threshold(
